@@ -68,8 +68,8 @@ let mon2s (m : Sched.mon) =
   let x = m.Sched.mx in
   Printf.sprintf "MON %s fwd=%s rp=%s dp=%s dw=%s dr=%s ram=%s disk=%s passes=%s acts=%s"
     (match m.Sched.merr_ with None -> "ok" | Some (e, i) -> merr2s e ^ "@" ^ string_of_z i)
-    (string_of_z x.Exec.fwd_total) (string_of_z x.Exec.ram_peak) (string_of_z x.Exec.disk_peak)
-    (string_of_z x.Exec.disk_writes) (string_of_z x.Exec.disk_reads)
+    (string_of_z x.Exec.cnt.Exec.fwd_total) (string_of_z x.Exec.cnt.Exec.ram_peak) (string_of_z x.Exec.cnt.Exec.disk_peak)
+    (string_of_z x.Exec.cnt.Exec.disk_writes) (string_of_z x.Exec.cnt.Exec.disk_reads)
     (zl2s (Exec.sort_keys (Exec.keys x.Exec.ram))) (zl2s (Exec.sort_keys (Exec.keys x.Exec.disk)))
     (string_of_z x.Exec.passes) (string_of_z m.Sched.mcount)
 let op2s = function
